@@ -22,7 +22,7 @@ RelLits == { R("today", 0), R("yesterday", -1), R("-2", -2), R("+1", 1) }
 Clocks == { Epoch(2017, 5, 1, 12, 0, 0, 0), Epoch(2017, 3, 31, 23, 59, 59, 0), Epoch(2016, 3, 1, 0, 0, 30, 0) }
 Offsets == {0, 10800, 1}          \* zone codes: fixed offsets, and 1 = a zone with daylight saving time (Civil!ZoneOffAt)
 TzName(off) == IF off = 0 THEN "UTC" ELSE IF off = 1 THEN "EST5EDT,M3.2.0,M11.1.0" ELSE "Etc/GMT-3"
-Ops == {"eq", "ne", "gt", "gte", "lt", "lte"}
+Ops == {"eq", "ne", "gt", "gte", "lt", "lte", "range"}      \* range: the column compared twice in one WHERE (`>= lit and <= lit`)
 
 (* the closed interval [a, b] of instants a literal denotes in zone `off` with clock `clk` *)
 Interval(x, off, clk) ==
@@ -65,6 +65,7 @@ LitText == IF lit.word # "" THEN lit.word
                 \o (IF lit.prec >= 4 THEN ":" \o Pad2(lit.ss) ELSE "")
 Shown == IF quoted THEN "'" \o LitText \o "'" ELSE LitText
 Query == IF op = "stamp" THEN "select name, modified from '.' into list"
+         ELSE IF op = "range" THEN "select name from '.' where modified >= " \o Shown \o " and modified <= " \o Shown \o " into list"
          ELSE "select name from '.' where modified " \o OpText(op) \o " " \o Shown \o " into list"
 Class == IF op = "stamp" THEN "modified-text/" \o TzName(tz)
          ELSE (IF lit.word # "" THEN "relative:" \o lit.word ELSE "precision" \o ToString(lit.prec)) \o "/" \o op
